@@ -90,8 +90,7 @@ static void deliver(void) {
   if (was_destroyed) VF_ASSERT(cb_calls == 0, "callback invoked after the handler object was destroyed");
   if (!was_dtor) must_stop = 1;
 }
-void vf_yield(int site) {
-  int code = SITE_CODE(site);
+static void maybe_deliver(int code) {
   if (in_handler || code >= 400 && code < 900) return;   /* no nested delivery inside the handler (stated bound) */
   if (nsig >= MAXSIG) return;
   if (!disp[0] && !disp[1]) return;
@@ -99,6 +98,8 @@ void vf_yield(int site) {
   VF_OBS(code);
   deliver();
 }
+void vf_marker(u32 code) { maybe_deliver((int)code); }      /* MP_VERIF_SIGPOINT(code) in the real source */
+void vf_yield(int site) { maybe_deliver(site); }              /* between harness steps (codes >= 900) */
 static void check_stop(const char *unused) {
   if (must_stop) VF_ASSERT(w_stop((char *)hobj) != 0, "an interrupt delivered after installation is not observed by Stop()");
 }
